@@ -47,7 +47,7 @@ func (e *engine) Info() core.Info {
 		QuickRuns: 100000, ThoroughRuns: 4000000, QuickWallS: 60, ThoroughWallS: 1200,
 	}
 	if e.prop == "C11" {
-		in.Rule = "a case is one seeded history (<=400 ops, one run in 300 up to 7000 ops: insert (also of an already stored object), delete present/absent, intersect queries, over phases grow/churn/drain/drain-all/refill, random branching parameters 2<=min<=max/2, grid or float coordinates, pointer/point/degenerate objects); non-trivial = the tree reached depth>=2 AND at least one delete of a stored object happened on a multi-level tree; distinct = distinct hash of the full operation+result log"
+		in.Rule = "a case is one seeded history (<=400 ops, one run in 300 up to 7000 ops: insert (also of an already stored object), delete present/absent, intersect queries, over phases grow/churn/drain/drain-all/refill, random branching parameters 2<=min<=max/2, grid or float coordinates, pointer/point/degenerate objects, fan-outs up to 140, and one history in twelve insert-only over slice-typed (uncomparable) geometries); non-trivial = the tree reached depth>=2 AND at least one delete of a stored object happened on a multi-level tree; distinct = distinct hash of the full operation+result log"
 	} else {
 		in.Rule = "a case is one seeded history (<=400 ops, one run in 300 up to 7000 ops, same generator as C11) with nearest-neighbour and k-nearest queries after mutations; non-trivial = at least one NN/kNN query was answered on a tree of depth>=2 that had already seen a delete; distinct = distinct hash of the full operation+result log"
 	}
@@ -61,6 +61,12 @@ type stored struct {
 }
 
 type run struct {
+	// an earlier answer must stay the answer it was: the slice a query
+	// returned is kept, with a copy, and re-examined after later operations
+	heldRes  []geom.Geom
+	heldCopy []geom.Geom
+	heldWhat string
+
 	prop                                   string
 	t                                      *tape.Tape
 	log                                    *core.Log
@@ -74,6 +80,7 @@ type run struct {
 	grid                                   int // 0 = float coords, else grid size
 	scale                                  float64
 	bulk                                   bool // long history: structural walk only on every 61st mutation
+	slices                                 bool // objects are slice-typed geometries (not comparable): insert-only history
 	nMut                                   int
 	seenDelete, seenMultiDelete, nnOnMulti bool
 	lastDepth                              int
@@ -130,6 +137,41 @@ func (r *run) newObj() stored {
 	kind := r.t.Choose(4, "obj-kind") // 0 box ptr, 1 point value, 2 degenerate box ptr, 3 copy of an existing box (coincident)
 	id := r.next
 	r.next++
+	if r.slices {
+		// a slice-typed geometry stored by value: cannot be compared with ==
+		// (so it can never be deleted), but is a legal object to insert and find
+		n := 1 + r.t.Choose(3, "slice-len")
+		pts := make([]geom.Point, n)
+		for i := range pts {
+			pts[i] = geom.Point{X: r.coord("sx"), Y: r.coord("sy")}
+		}
+		if len(r.model) > 0 && r.t.OneIn(3, "slice-coincide") {
+			// same vertices as an existing object: equal boxes, equal distances
+			switch o := r.model[r.t.Choose(len(r.model), "slice-coincide-with")].obj.(type) {
+			case geom.LineString:
+				pts = append([]geom.Point{}, o...)
+			case geom.MultiPoint:
+				pts = append([]geom.Point{}, o...)
+			case geom.Polygon:
+				pts = append([]geom.Point{}, o[0]...)
+			}
+		}
+		var g geom.Geom
+		switch r.t.Choose(3, "slice-type") {
+		case 0:
+			g = geom.LineString(pts)
+		case 1:
+			g = geom.MultiPoint(pts)
+		default:
+			g = geom.Polygon{pts}
+		}
+		bb := geom.Bounds{Min: pts[0], Max: pts[0]}
+		for _, p := range pts[1:] {
+			bb.Min.X, bb.Min.Y = math.Min(bb.Min.X, p.X), math.Min(bb.Min.Y, p.Y)
+			bb.Max.X, bb.Max.Y = math.Max(bb.Max.X, p.X), math.Max(bb.Max.Y, p.Y)
+		}
+		return stored{obj: g, bb: bb, id: id}
+	}
 	switch kind {
 	case 1:
 		p := geom.Point{X: r.coord("px"), Y: r.coord("py")}
@@ -202,10 +244,16 @@ func (r *run) exec() {
 		r.max = 9 + t.Choose(8, "cfg-max")
 	case 3:
 		r.max = 50
+	case 4:
+		// any fan-out up to 140 (powers of two and their neighbours included)
+		r.max = []int{31, 32, 33, 63, 64, 65, 100, 127, 128, 129, 17 + t.Choose(124, "cfg-max-any")}[t.Choose(11, "cfg-max-large")]
 	default:
 		r.max = 4 + t.Choose(5, "cfg-max")
 	}
 	r.min = 2 + t.Choose(r.max/2-1, "cfg-min")
+	if r.max > 16 && t.Bool("cfg-min-half") {
+		r.min = r.max / 2
+	}
 	if r.max == 50 && t.Bool("cfg-route-params") {
 		r.min = 25
 	}
@@ -216,14 +264,18 @@ func (r *run) exec() {
 		// (sub-unit distances, rounding), and a large spacing
 		r.scale = []float64{1, 1, 0.125, 0.1, 1.0 / 3, 1000}[t.Choose(6, "cfg-scale")]
 	}
-	r.log.Eventf("config min=%d max=%d grid=%d scale=%g", r.min, r.max, r.grid, r.scale)
+	r.slices = t.OneIn(12, "cfg-uncomparable-objects")
+	r.log.Eventf("config min=%d max=%d grid=%d scale=%g uncomparable=%v", r.min, r.max, r.grid, r.scale, r.slices)
+	if r.slices {
+		r.res.Probe("history-with-uncomparable-objects(insert-only)")
+	}
 	if p, v, st := core.Protect(func() { r.tree = rtree.NewTree(r.min, r.max) }); p {
 		r.fail("panic", "NewTree", "NewTree(%d,%d) panicked: %v %s", r.min, r.max, v, core.TrimStack(st, 3))
 		return
 	}
 	budget := 400
-	if r.max == 50 {
-		budget = 700 // deep trees with the fan-out route uses need more objects
+	if r.max >= 30 {
+		budget = 700 + 6*r.max // large fan-outs need more objects before anything splits
 	}
 	if t.OneIn(300, "cfg-bulk") {
 		// a long history (thousands of objects): three and more levels also
@@ -239,9 +291,12 @@ func (r *run) exec() {
 	for r.res.Viol == nil && r.res.Aborted == "" && ops < budget {
 		// phase
 		phase := t.Choose(6, "phase") // 0 grow,1 churn,2 drain,3 drain-all,4 refill-burst,5 queries
+		if r.slices && phase >= 1 && phase <= 3 {
+			phase = 5 * (phase % 2) // insert-only: grow or query
+		}
 		n := 1 + t.Choose(40, "phase-len")
-		if phase == 0 && r.max == 50 {
-			n += 60
+		if phase == 0 && r.max >= 30 {
+			n += 2 * r.max
 		}
 		if r.bulk {
 			n *= 25
@@ -319,6 +374,7 @@ func (r *run) insert() {
 		return
 	}
 	r.model = append(r.model, s)
+	r.checkHeld("Insert")
 	r.afterOp("insert")
 }
 
@@ -332,6 +388,9 @@ func (r *run) mutPanic(op string, v interface{}, st string) {
 }
 
 func (r *run) deletePresent(order int) {
+	if r.slices {
+		return
+	}
 	if len(r.model) == 0 {
 		r.deleteAbsent()
 		return
@@ -381,10 +440,14 @@ func (r *run) deletePresent(order int) {
 	if len(r.dead) > 16 {
 		r.dead = r.dead[1:]
 	}
+	r.checkHeld("Delete")
 	r.afterOp("delete")
 }
 
 func (r *run) deleteAbsent() {
+	if r.slices {
+		return // == on slice-typed objects panics by the language's rules; Delete is not defined for them
+	}
 	var s stored
 	kind := r.t.Choose(3, "absent-kind")
 	switch {
@@ -632,6 +695,19 @@ func (r *run) afterOp(op string) {
 				want = geom.Bounds{Min: o, Max: o}
 			case *geom.Bounds:
 				want = *o
+			default:
+				// slice-typed geometry: look its box up in the model
+				found := false
+				for _, m := range r.model {
+					if sameObj(m.obj, e.Obj) {
+						want, found = m.bb, true
+						break
+					}
+				}
+				if !found {
+					r.fail("leaf-entry-malformed", "unknown-object", "after %s: a leaf holds %v, which was never inserted", op, e.Obj)
+					return
+				}
 			}
 			if e.BB != want {
 				r.fail("envelope-wrong", "leaf", "after %s: leaf entry box %v differs from its object's box %v", op, e.BB, want)
@@ -722,7 +798,39 @@ func (r *run) query() {
 	}
 }
 
-func geomKey(g geom.Geom) string { return fmt.Sprintf("%T:%p:%v", g, g, g) }
+func (r *run) hold(what string, res []geom.Geom) {
+	r.heldRes, r.heldWhat = res, what
+	r.heldCopy = append([]geom.Geom(nil), res...)
+}
+
+// checkHeld verifies that the slice returned by an earlier query still holds
+// what it held when it was returned.
+func (r *run) checkHeld(after string) {
+	if r.heldRes == nil || r.res.Viol != nil {
+		return
+	}
+	bad := len(r.heldRes) != len(r.heldCopy)
+	for i := 0; !bad && i < len(r.heldCopy); i++ {
+		a, b := r.heldRes[i], r.heldCopy[i]
+		if (a == nil) != (b == nil) || (a != nil && !sameObj(a, b)) {
+			bad = true
+		}
+	}
+	if bad {
+		r.fail("earlier-answer-overwritten", r.heldWhat, "the slice returned by an earlier %s was changed by a later %s: it held %v, now holds %v", r.heldWhat, after, r.heldCopy, r.heldRes)
+	}
+	r.heldRes = nil
+}
+
+func geomKey(g geom.Geom) string {
+	switch v := g.(type) {
+	case geom.Polygon:
+		if len(v) > 0 && len(v[0]) > 0 {
+			return fmt.Sprintf("%T:%p:%d", g, &v[0][0], len(v[0]))
+		}
+	}
+	return fmt.Sprintf("%T:%p:%v", g, g, g)
+}
 
 func (r *run) searchIntersect() {
 	q := r.queryBox()
@@ -743,6 +851,11 @@ func (r *run) searchIntersect() {
 		}
 	}
 	r.log.EventInts("search-result", int64(len(got)), int64(nwant))
+	r.checkHeld("SearchIntersect")
+	if r.res.Viol != nil {
+		return
+	}
+	defer r.hold("SearchIntersect", got)
 	if r.lastDepth >= 2 {
 		r.res.Probe("search-on-multilevel")
 	}
@@ -766,9 +879,40 @@ func (r *run) searchIntersect() {
 	}
 }
 
+// sameObj is object identity: == for comparable objects, same backing array
+// and length for slice-typed geometries.
+func sameObj(a, b geom.Geom) bool {
+	first := func(g geom.Geom) (*geom.Point, int, bool) {
+		switch v := g.(type) {
+		case geom.LineString:
+			if len(v) == 0 {
+				return nil, 0, true
+			}
+			return &v[0], len(v), true
+		case geom.MultiPoint:
+			if len(v) == 0 {
+				return nil, 0, true
+			}
+			return &v[0], len(v), true
+		case geom.Polygon:
+			if len(v) == 0 || len(v[0]) == 0 {
+				return nil, 0, true
+			}
+			return &v[0][0], len(v[0]), true
+		}
+		return nil, 0, false
+	}
+	pa, na, sa := first(a)
+	pb, nb, sb := first(b)
+	if sa || sb {
+		return sa && sb && pa == pb && na == nb && fmt.Sprintf("%T", a) == fmt.Sprintf("%T", b)
+	}
+	return a == b
+}
+
 func (r *run) findStored(g geom.Geom, used []bool) int {
 	for i, s := range r.model {
-		if !used[i] && s.obj == g {
+		if !used[i] && sameObj(s.obj, g) {
 			return i
 		}
 	}
@@ -842,6 +986,11 @@ func (r *run) kNearest() {
 		return
 	}
 	r.noteNN()
+	r.checkHeld("NearestNeighbors")
+	if r.res.Viol != nil {
+		return
+	}
+	defer r.hold("NearestNeighbors", got)
 	if k > r.max && r.lastDepth >= 2 {
 		r.res.Probe("knn-k>fanout-on-multilevel")
 	}
